@@ -28,6 +28,14 @@ PREFER[6] = ("Prefer, this time, changes of these kinds: (a) ERROR PATHS: what a
              "(already well covered). Note: the library has received many bug fixes recently; base your work on the code as it is in your "
              "worktree now. Run the stable test command WITHOUT the `-x` flag (the always-failing network test testLocation would "
              "otherwise stop the run before the remaining files).")
+PREFER[7] = ("Prefer, this time, changes that need TWO COOPERATING SITES that each look fine alone (a producer that changes what it "
+             "writes and a consumer that still assumes the old shape; a helper whose contract is loosened and one caller that relied on "
+             "it), or a MULTI-STEP HISTORY in which an earlier operation leaves something behind that a later, different operation trips "
+             "over (three or more public calls of different kinds). Avoid caches/memoisation, in-place sorting, identifier allocation "
+             "from the collection size, stale handles and vocabulary/character-set changes (already well covered). Note: the library has "
+             "received many bug fixes recently; base your work on the code as it is in your worktree now. Run the stable test command "
+             "WITHOUT the `-x` flag. You have a HARD LIMIT of 9 minutes wall-clock in total: produce ONE change only (k = 1), keep it "
+             "small, and stop as soon as it is verified.")
 os.makedirs(out, exist_ok=True)
 for pid in ids:
     base = open('/verif/seeded/_prompts/%s_r4.txt' % pid).read() if os.path.exists('/verif/seeded/_prompts/%s_r4.txt' % pid) else None
